@@ -1,1 +1,20 @@
-From Arche Require Import Model.Base.
+(** C07 - Registering a filter never changes what it selects (level: partial).  Proved on
+    the model: registration stores the original filter with exactly the tables the
+    unregistered filter selects at that moment; unregistration returns the original filter
+    and leaves all other entries in place; neither touches tables or nodes.  That the list
+    stays equal to the uncached selection under later table creation / retirement / reset
+    is decided by the correspondence run (every cached scan is paired with an uncached one). *)
+From Arche Require Import Model.Base Model.Filter Model.World Model.Ops Proofs.Misc.
+
+Theorem C07_register : forall w f,
+  let '(w', id) := cache_register w f in
+  id = w_cnext w /\ w_cache w' = w_cache w ++ [mkCE id f (get_tables w f)] /\ w_tables w' = w_tables w /\ w_nodes w' = w_nodes w.
+Proof. exact cache_register_entry. Qed.
+
+Theorem C07_unregister : forall w id w' f,
+  cache_unregister w id = Some (w', f) ->
+  (exists e, e ∈ w_cache w /\ c_id e = id /\ c_filter e = f) /\
+  (forall e, e ∈ w_cache w' -> e ∈ w_cache w) /\ w_tables w' = w_tables w /\ w_nodes w' = w_nodes w.
+Proof. exact cache_unregister_original. Qed.
+
+Print Assumptions C07_unregister.
